@@ -8,7 +8,10 @@ def load(d):
     info = json.load(open(os.path.join(d, "info.json")))
     cfg = info["cfg"]
     cfg["flexargs"] = tuple(cfg.get("flexargs", ()))
-    inp = {"sources": case["sources"], "sched": info.get("sched") or [0]}
+    inp = {"sources": case["sources"], "sched": info.get("sched") or [0],
+           "bufsize": info.get("bufsize", 0), "flags": info.get("flags", 0)}
+    if "strings" in case:
+        inp["strings"] = case["strings"]
     if case.get("cmp_deliv"):
         inp["cmp_deliv"] = True
         inp["flags"] = 1
